@@ -98,7 +98,10 @@ Proof.
   pose proof (Key (table s0) s0 W0 Hin Hn Hst Hh) as K1.
   unfold set_established in *. fold s0 in Ho1, Hopen, Hmono |- *.
   rewrite (pair_eta (open_negotiated s0 (table s0))) in Ho1, Hopen, Hmono |- *. cbn [fst snd] in Ho1, Hopen, Hmono |- *.
-  rewrite opens_app in *. assert (E0 : opens h [EvSchedFlush] = 0%nat) by reflexivity. rewrite E0 in *.
+  rewrite opens_app in *.
+  assert (E0 : opens h ([EvSchedFlush] ++ match rq_queue (fst (open_negotiated s0 (table s0))) with [] => [] | _ => [EvSchedReconfig] end) = 0%nat)
+    by (destruct (rq_queue (fst _)); reflexivity).
+  rewrite E0 in *.
   split; [|lia].
   destruct (Hopen ltac:(lia)) as [_ Hr]. unfold rk in Hr.
   destruct (Nat.ltb h (length (chans (fst (open_negotiated s0 (table s0)))))) eqn:Hl'; [|lia].
